@@ -144,6 +144,46 @@ func (e *Engine) EnableStub(name, kind string) {
 				return Tuple{mk(st, path), Iface{}}
 			})
 		}
+	case "sock-request":
+		// (*sock.Client).Request: an I/O shell. No live listener at the address => "dial failed"
+		// error (not ErrTimeout); live => the registered payload; hung peer => ErrTimeout.
+		e.Intr[full] = func(c *Call) []*State {
+			cl := c.St.Load(c.Args[0].(Ptr)).(*Struct)
+			addr := cl.F[0].(*Term)
+			if !addr.Const {
+				panic(unsupported("sock.Client.Request with symbolic address"))
+			}
+			stv, ok := c.St.Ghost["sock:"+addr.S]
+			c.St.Events = append(c.St.Events, Event{Kind: "sock-request", Args: []Value{addr, c.Args[1], c.Args[2]}, Thr: c.Th.ID})
+			if !ok {
+				return c.Return(Tuple{StrC(""), c.E.newErrorString(c.St, StrC("dial failed: connection refused"))})
+			}
+			tp := stv.(Tuple)
+			live, timeout := tp[0].(*Term), tp[1].(*Term)
+			if !live.Const || !timeout.Const {
+				panic(unsupported("vfSock with symbolic flags"))
+			}
+			if !live.B {
+				return c.Return(Tuple{StrC(""), c.E.newErrorString(c.St, StrC("dial failed: connection refused"))})
+			}
+			if timeout.B {
+				g := c.E.Prog.ImportedPackage(repoMod + "/internal/sock").Var("ErrTimeout")
+				inner := c.St.Load(Ptr{Obj: c.E.globalObj(c.St, g)})
+				return c.Return(Tuple{StrC(""), c.E.newWrapError(c.St, StrC("request timeout: unix socket timeout"), inner)})
+			}
+			return c.Return(Tuple{tp[2], Iface{}})
+		}
+	case "json-lookup":
+		// model.StatusFromJSON(s): succeeds iff s is a payload registered with vfJSON
+		e.Intr[full] = func(c *Call) []*State {
+			s := c.argTerm(0)
+			if s.Const {
+				if v, ok := c.St.Ghost["jsonobj:"+s.S]; ok {
+					return c.Return(Tuple{v, Iface{}})
+				}
+			}
+			return c.Return(Tuple{Ptr{}, c.E.newErrorString(c.St, StrC("invalid character in JSON"))})
+		}
 	default:
 		panic("unknown stub kind " + kind)
 	}
